@@ -233,7 +233,8 @@ public:
 
     //--------------------------------------------------------------------
     //compare vector
-    std::vector<bool> operator>(const base_array<T>& rhs) const noexcept {
+    std::vector<bool> operator>(const base_array<T>& rhs) const {
+        DSPLIB_ASSERT(this->size() == rhs.size(), "arrays sizes must be equal");
         std::vector<bool> res(_vec.size());
         for (size_t i = 0; i < _vec.size(); ++i) {
             res[i] = (_vec[i] > rhs._vec[i]);
@@ -241,7 +242,8 @@ public:
         return res;
     }
 
-    std::vector<bool> operator<(const base_array<T>& rhs) const noexcept {
+    std::vector<bool> operator<(const base_array<T>& rhs) const {
+        DSPLIB_ASSERT(this->size() == rhs.size(), "arrays sizes must be equal");
         std::vector<bool> res(_vec.size());
         for (size_t i = 0; i < _vec.size(); ++i) {
             res[i] = (_vec[i] < rhs._vec[i]);
@@ -249,7 +251,8 @@ public:
         return res;
     }
 
-    std::vector<bool> operator==(const base_array<T>& rhs) const noexcept {
+    std::vector<bool> operator==(const base_array<T>& rhs) const {
+        DSPLIB_ASSERT(this->size() == rhs.size(), "arrays sizes must be equal");
         std::vector<bool> res(_vec.size());
         for (size_t i = 0; i < _vec.size(); ++i) {
             res[i] = (_vec[i] == rhs._vec[i]);
@@ -257,7 +260,7 @@ public:
         return res;
     }
 
-    std::vector<bool> operator!=(const base_array<T>& rhs) const noexcept {
+    std::vector<bool> operator!=(const base_array<T>& rhs) const {
         auto r = (*this == rhs);
         r.flip();
         return r;
